@@ -44,6 +44,34 @@ inductive Tok where
   | plus | minus | mul | div | exp
   | instance | kof
   | lparen | rparen | lbrack | rbrack | dot | comma
+  | kif | kthen | kelse | kfor | kreturn | ksome | kevery | ksatisfies | kfunction
+  | lbrace | rbrace | colon | ellipsis
+  deriving DecidableEq, Repr, Inhabited
+
+/-- The comparison that starts a `simple_positive_unary_test` (feel.y:159-162),
+`AstNode::{UnaryLt, UnaryLe, UnaryGt, UnaryGe}` (parser.rs:430-456). -/
+inductive Cmp where
+  | lt | le | gt | ge
+  deriving DecidableEq, Repr, Inhabited
+
+/-- `endpoint` (feel.y:181-188): a qualified name or a simple literal (the harness never
+numbers `null`, which is no `simple_literal`, here). -/
+inductive End where
+  | qn (q : Nat) (qs : List Nat)
+  | num (n : Nat)
+  | lit (k : Nat)
+  deriving DecidableEq, Repr, Inhabited
+
+/-- The three spellings of either end of an interval (feel.y:169-179): start `(` `]` `[`,
+end `)` `[` `]`.  `AstNode::IntervalStart/IntervalEnd` keep only closed (`square`) or not. -/
+inductive Bra where
+  | round | rev | square
+  deriving DecidableEq, Repr, Inhabited
+
+/-- `key` (feel.y:215-218): a name or a string. -/
+inductive Key where
+  | name (n : Nat)
+  | str (k : Nat)
   deriving DecidableEq, Repr, Inhabited
 
 mutual
@@ -63,13 +91,51 @@ inductive Tree where
   | filter (e i : Tree)
   /-- `AstNode::FunctionInvocation(f, PositionalParameters args)` (parser.rs:744-759) -/
   | call (f : Tree) (args : Args)
+  /-- `FunctionInvocation(f, NamedParameters [n: v, …])` (parser.rs:983-1007): at least one -/
+  | callNamed (f : Tree) (n : Nat) (v : Tree) (more : Binds)
+  /-- `In(e, ExpressionList [a, b, …])`: `e in (a, b, …)`, at least two items
+  (`comparison_in`, feel.y:155-157) -/
+  | inList (e a b : Tree) (more : Args)
+  /-- `AstNode::If(c, a, b)` (parser.rs:779) -/
+  | ite (c a b : Tree)
+  /-- `For(IterationContexts [IterationContextSingle(v, d), …], EvaluatedExpression body)` -/
+  | forS (v : Nat) (d : Tree) (its : Iters) (body : Tree)
+  /-- the same with a first context `v in lo .. hi` (`IterationContextRange`) -/
+  | forR (v : Nat) (lo hi : Tree) (its : Iters) (body : Tree)
+  /-- `Some/Every(QuantifiedContexts [QuantifiedContext(v, d), …], Satisfies body)` -/
+  | quant (every : Bool) (v : Nat) (d : Tree) (qs : Binds) (body : Tree)
+  /-- `FunctionDefinition(FormalParameters ps (all of type Any), FunctionBody(body, false))` -/
+  | fn (ps : List Nat) (body : Tree)
+  /-- `AstNode::List` (parser.rs:921) -/
+  | list (items : Args)
+  /-- `AstNode::Context` (parser.rs:417-437) -/
+  | ctx (es : Entries)
+  /-- `Range(IntervalStart(lo, closed), IntervalEnd(hi, closed))` with the spelling of its ends -/
+  | range (b1 : Bra) (lo hi : End) (b2 : Bra)
+  /-- `< e`, `<= e`, `> e`, `>= e` -/
+  | utest (c : Cmp) (e : End)
 inductive Args where
   | nil
   | cons (a : Tree) (as : Args)
+/-- `name sep value` lists: named parameters (`n : v`), quantified contexts (`n in v`). -/
+inductive Binds where
+  | nil
+  | cons (n : Nat) (v : Tree) (bs : Binds)
+inductive Entries where
+  | nil
+  | cons (k : Key) (v : Tree) (es : Entries)
+/-- iteration contexts after the first -/
+inductive Iters where
+  | nil
+  | single (v : Nat) (d : Tree) (its : Iters)
+  | range (v : Nat) (lo hi : Tree) (its : Iters)
 end
 
 instance : Inhabited Tree := ⟨.atom (.name 0)⟩
 instance : Inhabited Args := ⟨.nil⟩
+instance : Inhabited Binds := ⟨.nil⟩
+instance : Inhabited Entries := ⟨.nil⟩
+instance : Inhabited Iters := ⟨.nil⟩
 
 /-! ## The table: levels of tokens and rules -/
 
@@ -121,6 +187,16 @@ def instLvl : Nat := level .INSTANCE
 def dotLvl : Nat := level .DOT
 def parenLvl : Nat := level .LEFT_PAREN
 def brackLvl : Nat := level .LEFT_BRACKET
+/-- The last operand of `if`, `for`, `some`/`every` and the body of a function definition:
+the rule's precedence is that of `ELSE` / `RETURN` / `SATISFIES` / `EXTERNAL` (feel.y:110-113,
+355-356), all `%precedence` lines: yacc shifts every token above that line, so these operands
+run as far right as they can. -/
+def iteMin : Nat := symLevel rulePrec_if + 1
+def forMin : Nat := symLevel rulePrec_for + 1
+def someMin : Nat := symLevel rulePrec_some + 1
+def everyMin : Nat := symLevel rulePrec_every + 1
+def fnMin : Nat := symLevel rulePrec_function_body + 1
+def quantMin (every : Bool) : Nat := if every then everyMin else someMin
 
 def tokOf : BinOp → Tok
   | .or => .kor | .and => .kand
@@ -148,6 +224,17 @@ def opLevel (t : Tok) : Option Nat :=
     | .lbrack => some brackLvl
     | _ => none
 
+/-- After `in`: the tokens after an opening parenthesis (where the list form may begin). -/
+def inListOf (o : BinOp) (rest : List Tok) : Option (List Tok) :=
+  match o, rest with
+  | .in_, .lparen :: rest0 => some rest0
+  | _, _ => none
+
+/-- After the `(` of an invocation: `NAME :` starts named parameters (feel.y:253-255). -/
+def namedStart : List Tok → Option (Nat × List Tok)
+  | .name n :: .colon :: rest0 => some (n, rest0)
+  | _ => none
+
 def atomTok : Atom → Tok
   | .name n => .name n
   | .num n => .num n
@@ -163,6 +250,74 @@ def parseQual : List Tok → List Nat × List Tok
     (n :: r.1, r.2)
   | toks => ([], toks)
 
+/-- `endpoint` (feel.y:181-188). -/
+def parseEnd : List Tok → Option (End × List Tok)
+  | .name q :: rest => some (.qn q (parseQual rest).1, (parseQual rest).2)
+  | .num n :: rest => some (.num n, rest)
+  | .lit k :: rest => some (.lit k, rest)
+  | _ => none
+
+def startTok : Bra → Tok
+  | .round => .lparen | .rev => .rbrack | .square => .lbrack
+def endTok : Bra → Tok
+  | .round => .rparen | .rev => .lbrack | .square => .rbrack
+def closerOf : Tok → Option Bra
+  | .rparen => some .round | .lbrack => some .rev | .rbrack => some .square
+  | _ => none
+
+/-- `interval` after its opening token (feel.y:165-179): `endpoint .. endpoint` and a closer. -/
+def parseRange (b1 : Bra) (rest : List Tok) : Option (Tree × List Tok) :=
+  match parseEnd rest with
+  | some (lo, .ellipsis :: r1) =>
+    match parseEnd r1 with
+    | some (hi, c :: r2) =>
+      match closerOf c with
+      | some b2 => some (.range b1 lo hi b2, r2)
+      | none => none
+    | _ => none
+  | _ => none
+
+/-- `formal_parameters` after `function (` (feel.y:340-353, without types). -/
+def parseParamsTail : List Tok → Option (List Nat × List Tok)
+  | .rparen :: rest => some ([], rest)
+  | .comma :: .name p :: rest =>
+    match parseParamsTail rest with
+    | some (ps, rest') => some (p :: ps, rest')
+    | none => none
+  | _ => none
+
+def parseParams : List Tok → Option (List Nat × List Tok)
+  | .rparen :: rest => some ([], rest)
+  | .name p :: rest =>
+    match parseParamsTail rest with
+    | some (ps, rest') => some (p :: ps, rest')
+    | none => none
+  | _ => none
+
+/-- The token starts an `endpoint`. -/
+def startsEnd : Tok → Bool
+  | .name _ => true
+  | .num _ => true
+  | .lit _ => true
+  | _ => false
+
+/-- After `[`: the tokens after a `]` that closes the empty list.  A `]` followed by the first
+token of an endpoint opens an interval instead (`[ ]1..2[ ]`; in the tables both readings
+share the state after `[ ]` and the next token decides). -/
+def emptyListRest : List Tok → Option (List Tok)
+  | .rbrack :: t :: r => if startsEnd t then none else some (t :: r)
+  | [.rbrack] => some []
+  | _ => none
+
+def cmpOf : Tok → Option Cmp
+  | .lt => some .lt | .le => some .le | .gt => some .gt | .ge => some .ge
+  | _ => none
+
+def keyOf : Tok → Option Key
+  | .name n => some (.name n)
+  | .lit k => some (.str k)
+  | _ => none
+
 mutual
 /-- An expression all of whose infix/postfix operators at the top have a level ≥ `min`.
 The length tests before every continuation always succeed (a sub-parse returns a suffix of
@@ -173,16 +328,151 @@ def parseExpr (min : Nat) (toks : List Tok) : Option (Tree × List Tok) :=
   | .num n :: rest => parseLoop min none (.atom (.num n)) rest
   | .lit k :: rest => parseLoop min none (.atom (.lit k)) rest
   | .lparen :: rest =>
+    -- `( expression )` (feel.y:141) or `( endpoint .. endpoint` closer (feel.y:177)
     match parseExpr 0 rest with
     | some (e, .rparen :: rest') =>
       if _h : rest'.length ≤ rest.length then parseLoop min none e rest' else none
+    | some (_, .ellipsis :: _) =>
+      match parseRange .round rest with
+      | some (r, rest') => if _h : rest'.length ≤ rest.length then parseLoop min none r rest' else none
+      | none => none
     | _ => none
+  | .rbrack :: rest =>
+    match parseRange .rev rest with
+    | some (r, rest') => if _h : rest'.length ≤ rest.length then parseLoop min none r rest' else none
+    | none => none
+  | .lbrack :: rest =>
+    -- `list` (feel.y:220-232) or `[ endpoint .. endpoint` closer (feel.y:179)
+    match emptyListRest rest with
+    | some rest' => if _h : rest'.length ≤ rest.length then parseLoop min none (.list .nil) rest' else none
+    | none =>
+      match parseExpr 0 rest with
+      | some (_, .ellipsis :: _) =>
+        match parseRange .square rest with
+        | some (r, rest') => if _h : rest'.length ≤ rest.length then parseLoop min none r rest' else none
+        | none => none
+      | some (a, rest1) =>
+        if _h1 : rest1.length ≤ rest.length then
+          match parseArgsTail .rbrack rest1 with
+          | some (as, rest2) =>
+            if _h2 : rest2.length ≤ rest.length then parseLoop min none (.list (.cons a as)) rest2 else none
+          | none => none
+        else none
+      | none => none
   | .minus :: rest =>
     match parseExpr negMin rest with
     | some (e, rest') =>
       if _h : rest'.length ≤ rest.length then parseLoop min none (.neg e) rest' else none
     | none => none
-  | _ => none
+  | .kif :: rest =>
+    match parseExpr 0 rest with
+    | some (c, .kthen :: rest1) =>
+      if _h1 : rest1.length ≤ rest.length then
+        match parseExpr 0 rest1 with
+        | some (a, .kelse :: rest2) =>
+          if _h2 : rest2.length ≤ rest.length then
+            match parseExpr iteMin rest2 with
+            | some (b, rest3) =>
+              if _h3 : rest3.length ≤ rest.length then parseLoop min none (.ite c a b) rest3 else none
+            | none => none
+          else none
+        | _ => none
+      else none
+    | _ => none
+  | .kfor :: .name v :: .kin :: rest =>
+    match parseExpr 0 rest with
+    | some (lo, .ellipsis :: rest1) =>
+      if _h1 : rest1.length ≤ rest.length then
+        match parseExpr 0 rest1 with
+        | some (hi, rest2) =>
+          if _h2 : rest2.length ≤ rest.length then
+            match parseItersTail rest2 with
+            | some (its, rest3) =>
+              if _h3 : rest3.length ≤ rest.length then
+                match parseExpr forMin rest3 with
+                | some (body, rest4) =>
+                  if _h4 : rest4.length ≤ rest.length then parseLoop min none (.forR v lo hi its body) rest4 else none
+                | none => none
+              else none
+            | none => none
+          else none
+        | none => none
+      else none
+    | some (d, rest1) =>
+      if _h1 : rest1.length ≤ rest.length then
+        match parseItersTail rest1 with
+        | some (its, rest2) =>
+          if _h2 : rest2.length ≤ rest.length then
+            match parseExpr forMin rest2 with
+            | some (body, rest3) =>
+              if _h3 : rest3.length ≤ rest.length then parseLoop min none (.forS v d its body) rest3 else none
+            | none => none
+          else none
+        | none => none
+      else none
+    | none => none
+  | .ksome :: .name v :: .kin :: rest =>
+    match parseExpr 0 rest with
+    | some (d, rest1) =>
+      if _h1 : rest1.length ≤ rest.length then
+        match parseBindsTail .kin .ksatisfies rest1 with
+        | some (qs, rest2) =>
+          if _h2 : rest2.length ≤ rest.length then
+            match parseExpr someMin rest2 with
+            | some (body, rest3) =>
+              if _h3 : rest3.length ≤ rest.length then parseLoop min none (.quant false v d qs body) rest3 else none
+            | none => none
+          else none
+        | none => none
+      else none
+    | none => none
+  | .kevery :: .name v :: .kin :: rest =>
+    match parseExpr 0 rest with
+    | some (d, rest1) =>
+      if _h1 : rest1.length ≤ rest.length then
+        match parseBindsTail .kin .ksatisfies rest1 with
+        | some (qs, rest2) =>
+          if _h2 : rest2.length ≤ rest.length then
+            match parseExpr everyMin rest2 with
+            | some (body, rest3) =>
+              if _h3 : rest3.length ≤ rest.length then parseLoop min none (.quant true v d qs body) rest3 else none
+            | none => none
+          else none
+        | none => none
+      else none
+    | none => none
+  | .kfunction :: .lparen :: rest =>
+    match parseParams rest with
+    | some (ps, rest1) =>
+      if _h1 : rest1.length ≤ rest.length then
+        match parseExpr fnMin rest1 with
+        | some (body, rest2) =>
+          if _h2 : rest2.length ≤ rest.length then parseLoop min none (.fn ps body) rest2 else none
+        | none => none
+      else none
+    | none => none
+  | .lbrace :: .rbrace :: rest => parseLoop min none (.ctx .nil) rest
+  | .lbrace :: k :: .colon :: rest =>
+    match keyOf k with
+    | some key =>
+      match parseExpr 0 rest with
+      | some (v, rest1) =>
+        if _h1 : rest1.length ≤ rest.length then
+          match parseEntriesTail rest1 with
+          | some (es, rest2) =>
+            if _h2 : rest2.length ≤ rest.length then parseLoop min none (.ctx (.cons key v es)) rest2 else none
+          | none => none
+        else none
+      | none => none
+    | none => none
+  | t :: rest =>
+    match cmpOf t with
+    | some c =>
+      match parseEnd rest with
+      | some (e, rest') => if _h : rest'.length ≤ rest.length then parseLoop min none (.utest c e) rest' else none
+      | none => none
+    | none => none
+  | [] => none
 termination_by (toks.length, 1)
 
 /-- Extends `lhs` by the operators whose token level is ≥ `min`; `fb` is the level a
@@ -224,41 +514,141 @@ def parseLoop (min : Nat) (fb : Option Nat) (lhs : Tree) (toks : List Tok) : Opt
             if _h : rest1.length ≤ rest.length then parseLoop min none (.filter lhs i) rest1 else none
           | _ => none
         | .lparen =>
-          -- `parameters` (feel.y:247-251): `)` or a non-empty positional list
-          match parseExpr 0 rest with
-          | some (a, rest1) =>
-            if _h1 : rest1.length ≤ rest.length then
-              match parseArgsTail rest1 with
-              | some (as, rest2) =>
-                if _h2 : rest2.length ≤ rest.length then parseLoop min none (.call lhs (.cons a as)) rest2 else none
+          -- `parameters` (feel.y:234-268): `)`, named parameters, or a positional list
+          match namedStart rest with
+          | some (n, rest0) =>
+            if _h0 : rest0.length ≤ rest.length then
+              match parseExpr 0 rest0 with
+              | some (v, rest1) =>
+                if _h1 : rest1.length ≤ rest0.length then
+                  match parseBindsTail .colon .rparen rest1 with
+                  | some (bs, rest2) =>
+                    if _h2 : rest2.length ≤ rest0.length then parseLoop min none (.callNamed lhs n v bs) rest2 else none
+                  | none => none
+                else none
               | none => none
             else none
           | none =>
-            match rest with
-            | .rparen :: rest1 => parseLoop min none (.call lhs .nil) rest1
-            | _ => none
+            match parseExpr 0 rest with
+            | some (a, rest1) =>
+              if _h1 : rest1.length ≤ rest.length then
+                match parseArgsTail .rparen rest1 with
+                | some (as, rest2) =>
+                  if _h2 : rest2.length ≤ rest.length then parseLoop min none (.call lhs (.cons a as)) rest2 else none
+                | none => none
+              else none
+            | none =>
+              match rest with
+              | .rparen :: rest1 => parseLoop min none (.call lhs .nil) rest1
+              | _ => none
         | _ =>
           match binOf t with
           | some o =>
             if fb = some L then none
             else
-              match parseExpr (rhsMin o) rest with
-              | some (r, rest') =>
-                if _h : rest'.length ≤ rest.length then parseLoop min (nextForbid o) (.bin o lhs r) rest' else none
-              | none => none
+              -- `expression IN LEFT_PAREN comparison_in` (feel.y:126, 155-157): a comma after the
+              -- first expression within the parenthesis decides for the list
+              match inListOf o rest with
+              | some rest0 =>
+                match (if rest0.length ≤ rest.length then parseExpr 0 rest0 else none) with
+                | some (a, .comma :: rest1) =>
+                  if _h1 : rest1.length + 1 ≤ rest0.length ∧ rest0.length ≤ rest.length then
+                    match parseArgsTail .rparen (.comma :: rest1) with
+                    | some (.cons b more, rest2) =>
+                      if _h2 : rest2.length ≤ rest0.length then
+                        parseLoop min (nextForbid o) (.inList lhs a b more) rest2
+                      else none
+                    | _ => none
+                  else none
+                | _ =>
+                  match parseExpr (rhsMin o) rest with
+                  | some (r, rest') =>
+                    if _h : rest'.length ≤ rest.length then parseLoop min (nextForbid o) (.bin o lhs r) rest' else none
+                  | none => none
+              | none =>
+                match parseExpr (rhsMin o) rest with
+                | some (r, rest') =>
+                  if _h : rest'.length ≤ rest.length then parseLoop min (nextForbid o) (.bin o lhs r) rest' else none
+                | none => none
           | none => none
 termination_by (toks.length, 0)
 
-/-- `positional_parameters_tail` (feel.y:270-273). -/
-def parseArgsTail (toks : List Tok) : Option (Args × List Tok) :=
+/-- `positional_parameters_tail` (feel.y:270-273), `list_tail` (feel.y:229-232) and the rest of
+`comparison_in` (feel.y:148-157): `, expression` repeated up to the closing token. -/
+def parseArgsTail (close : Tok) (toks : List Tok) : Option (Args × List Tok) :=
   match toks with
-  | .rparen :: rest => some (.nil, rest)
   | .comma :: rest =>
     match parseExpr 0 rest with
     | some (a, rest1) =>
       if _h : rest1.length ≤ rest.length then
-        match parseArgsTail rest1 with
+        match parseArgsTail close rest1 with
         | some (as, rest2) => some (.cons a as, rest2)
+        | none => none
+      else none
+    | none => none
+  | t :: rest => if t = close then some (.nil, rest) else none
+  | [] => none
+termination_by (toks.length, 2)
+
+/-- `named_parameters_tail` (feel.y:257-260; `sep` = `:`, `close` = `)`) and the further
+`quantified_expression`s (feel.y:330-337; `sep` = `in`, `close` = `satisfies`). -/
+def parseBindsTail (sep close : Tok) (toks : List Tok) : Option (Binds × List Tok) :=
+  match toks with
+  | .comma :: .name n :: s :: rest =>
+    if s = sep then
+      match parseExpr 0 rest with
+      | some (v, rest1) =>
+        if _h : rest1.length ≤ rest.length then
+          match parseBindsTail sep close rest1 with
+          | some (bs, rest2) => some (.cons n v bs, rest2)
+          | none => none
+        else none
+      | none => none
+    else none
+  | t :: rest => if t = close then some (.nil, rest) else none
+  | [] => none
+termination_by (toks.length, 2)
+
+/-- `context_entry_tail` (feel.y:210-213). -/
+def parseEntriesTail (toks : List Tok) : Option (Entries × List Tok) :=
+  match toks with
+  | .rbrace :: rest => some (.nil, rest)
+  | .comma :: k :: .colon :: rest =>
+    match keyOf k with
+    | some key =>
+      match parseExpr 0 rest with
+      | some (v, rest1) =>
+        if _h : rest1.length ≤ rest.length then
+          match parseEntriesTail rest1 with
+          | some (es, rest2) => some (.cons key v es, rest2)
+          | none => none
+        else none
+      | none => none
+    | none => none
+  | _ => none
+termination_by (toks.length, 2)
+
+/-- The further `iteration_context`s and `return` (feel.y:311-323). -/
+def parseItersTail (toks : List Tok) : Option (Iters × List Tok) :=
+  match toks with
+  | .kreturn :: rest => some (.nil, rest)
+  | .comma :: .name v :: .kin :: rest =>
+    match parseExpr 0 rest with
+    | some (lo, .ellipsis :: rest1) =>
+      if _h1 : rest1.length ≤ rest.length then
+        match parseExpr 0 rest1 with
+        | some (hi, rest2) =>
+          if _h2 : rest2.length ≤ rest.length then
+            match parseItersTail rest2 with
+            | some (its, rest3) => some (.range v lo hi its, rest3)
+            | none => none
+          else none
+        | none => none
+      else none
+    | some (d, rest1) =>
+      if _h : rest1.length ≤ rest.length then
+        match parseItersTail rest1 with
+        | some (its, rest2) => some (.single v d its, rest2)
         | none => none
       else none
     | none => none
@@ -290,6 +680,7 @@ def wrapped (m : Mode) (needs : Bool) (c : Tree) : Bool :=
 /-- The level the loop that built this tree forbids next. -/
 def fbOf : Tree → Option Nat
   | .bin o _ _ => nextForbid o
+  | .inList _ _ _ _ => nextForbid .in_
   | _ => none
 
 def levelGe (t : Tok) (k : Nat) : Bool :=
@@ -297,10 +688,15 @@ def levelGe (t : Tok) (k : Nat) : Bool :=
   | some L => decide (k ≤ L)
   | none => false
 
+def endIsQn : End → Bool
+  | .qn _ _ => true
+  | _ => false
+
 mutual
 /-- `absorbs m c t`: printed bare (in mode `m`) and followed by the token `t`, the tree `c`
 would take `t` into itself: some operand loop left open along its bare right edge accepts
-`t` (or, after `instance of`, the qualified name continues with `.`). -/
+`t` (or, after `instance of` / a unary test, the qualified name continues with `.`; or, after
+`[ ]`, the first token of an endpoint turns the `]` into the start of an interval). -/
 def absorbs (m : Mode) : Tree → Tok → Bool
   | .atom _, _ => false
   | .bin o _ r, t =>
@@ -313,6 +709,23 @@ def absorbs (m : Mode) : Tree → Tok → Bool
   | .path _ _, _ => false
   | .filter _ _, _ => false
   | .call _ _, _ => false
+  | .callNamed _ _ _ _, _ => false
+  | .inList _ _ _ _, _ => false
+  | .ite _ _ b, t =>
+    levelGe t iteMin || (!wrapped m (!startsOk m iteMin b) b && absorbs m b t)
+  | .forS _ _ _ b, t =>
+    levelGe t forMin || (!wrapped m (!startsOk m forMin b) b && absorbs m b t)
+  | .forR _ _ _ _ b, t =>
+    levelGe t forMin || (!wrapped m (!startsOk m forMin b) b && absorbs m b t)
+  | .quant ev _ _ _ b, t =>
+    levelGe t (quantMin ev) || (!wrapped m (!startsOk m (quantMin ev) b) b && absorbs m b t)
+  | .fn _ b, t =>
+    levelGe t fnMin || (!wrapped m (!startsOk m fnMin b) b && absorbs m b t)
+  | .list .nil, t => startsEnd t
+  | .list (.cons _ _), _ => false
+  | .ctx _, _ => false
+  | .range _ _ _ _, _ => false
+  | .utest _ e, t => endIsQn e && t == .dot
 
 /-- `startsOk m min c`: printed bare, `c` is built completely by `parseExpr min`: every
 operator down its bare left edge has a level ≥ `min`. -/
@@ -332,13 +745,31 @@ def startsOk (m : Mode) (min : Nat) : Tree → Bool
     decide (min ≤ brackLvl) && (wrapped m (absorbs m e .lbrack) e || startsOk m min e)
   | .call f _ =>
     decide (min ≤ parenLvl) && (wrapped m (absorbs m f .lparen) f || startsOk m min f)
+  | .callNamed f _ _ _ =>
+    decide (min ≤ parenLvl) && (wrapped m (absorbs m f .lparen) f || startsOk m min f)
+  | .inList e _ _ _ =>
+    decide (min ≤ lvl .in_) &&
+      (wrapped m (absorbs m e .kin || fbOf e == some (lvl .in_)) e || startsOk m min e)
+  | .ite _ _ _ => true
+  | .forS _ _ _ _ => true
+  | .forR _ _ _ _ _ => true
+  | .quant _ _ _ _ _ => true
+  | .fn _ _ => true
+  | .list _ => true
+  | .ctx _ => true
+  | .range _ _ _ _ => true
+  | .utest _ _ => true
 end
 
-/-- Operand positions. -/
+/-- Operand positions.  `delim`: between two tokens that are no operators (the condition and
+the first branch of `if`, iteration domains, list items, context values, named parameters, the
+items of `in (…)`); `open k`: a last operand read under the minimum `k` (`else` branch, `return`
+/ `satisfies` operand, function body). -/
 inductive Pos where
   | binL (o : BinOp) | binR (o : BinOp) | negArg
   | betweenE | betweenLo | betweenHi
   | instE | pathE | filterE | filterI | callF | callArg
+  | delim | «open» (k : Nat)
   deriving DecidableEq, Repr
 
 /-- Must the child `c` at position `pos` be parenthesised (its siblings and itself being
@@ -357,6 +788,8 @@ def needs (m : Mode) (pos : Pos) (c : Tree) : Bool :=
   | .filterI => false
   | .callF => absorbs m c .lparen
   | .callArg => false
+  | .delim => false
+  | .open k => !startsOk m k c
 
 /-- `needsParens parent-position child`: the decision of the minimal printer. -/
 def needsParens (pos : Pos) (c : Tree) : Bool := needs .minimal pos c
@@ -367,6 +800,28 @@ def par (w : Bool) (p : List Tok) : List Tok :=
 def prQual : List Nat → List Tok
   | [] => []
   | n :: ns => .dot :: .name n :: prQual ns
+
+def prEnd : End → List Tok
+  | .qn q qs => .name q :: prQual qs
+  | .num n => [.num n]
+  | .lit k => [.lit k]
+
+def cmpTok : Cmp → Tok
+  | .lt => .lt | .le => .le | .gt => .gt | .ge => .ge
+
+def keyTok : Key → Tok
+  | .name n => .name n
+  | .str k => .lit k
+
+def prParamsTail : List Nat → List Tok
+  | [] => [.rparen]
+  | p :: ps => .comma :: .name p :: prParamsTail ps
+
+def prParams : List Nat → List Tok
+  | [] => [.rparen]
+  | p :: ps => .name p :: prParamsTail ps
+
+def quantTok (every : Bool) : Tok := if every then .kevery else .ksome
 
 mutual
 def pr (m : Mode) : Tree → List Tok
@@ -386,21 +841,70 @@ def pr (m : Mode) : Tree → List Tok
     par (wrapped m (needs m .filterE e) e) (pr m e) ++
       .lbrack :: (par (wrapped m (needs m .filterI i) i) (pr m i) ++ [.rbrack])
   | .call f as =>
-    par (wrapped m (needs m .callF f) f) (pr m f) ++ .lparen :: prArgs m as
-/-- The parameters and the closing parenthesis. -/
-def prArgs (m : Mode) : Args → List Tok
-  | .nil => [.rparen]
-  | .cons a as => par (wrapped m (needs m .callArg a) a) (pr m a) ++ prArgsTail m as
-def prArgsTail (m : Mode) : Args → List Tok
-  | .nil => [.rparen]
-  | .cons a as => .comma :: (par (wrapped m (needs m .callArg a) a) (pr m a) ++ prArgsTail m as)
+    par (wrapped m (needs m .callF f) f) (pr m f) ++ .lparen :: prArgs m .rparen as
+  | .callNamed f n v bs =>
+    par (wrapped m (needs m .callF f) f) (pr m f) ++
+      .lparen :: .name n :: .colon :: (par (wrapped m (needs m .delim v) v) (pr m v) ++
+        prBindsTail m .colon .rparen bs)
+  | .inList e a b more =>
+    par (wrapped m (needs m (.binL .in_) e) e) (pr m e) ++
+      .kin :: .lparen :: (par (wrapped m (needs m .delim a) a) (pr m a) ++
+        .comma :: (par (wrapped m (needs m .delim b) b) (pr m b) ++ prArgsTail m .rparen more))
+  | .ite c a b =>
+    .kif :: (par (wrapped m (needs m .delim c) c) (pr m c) ++
+      .kthen :: (par (wrapped m (needs m .delim a) a) (pr m a) ++
+        .kelse :: par (wrapped m (needs m (.open iteMin) b) b) (pr m b)))
+  | .forS v d its body =>
+    .kfor :: .name v :: .kin :: (par (wrapped m (needs m .delim d) d) (pr m d) ++
+      (prItersTail m its ++ par (wrapped m (needs m (.open forMin) body) body) (pr m body)))
+  | .forR v lo hi its body =>
+    .kfor :: .name v :: .kin :: (par (wrapped m (needs m .delim lo) lo) (pr m lo) ++
+      .ellipsis :: (par (wrapped m (needs m .delim hi) hi) (pr m hi) ++
+        (prItersTail m its ++ par (wrapped m (needs m (.open forMin) body) body) (pr m body))))
+  | .quant ev v d qs body =>
+    quantTok ev :: .name v :: .kin :: (par (wrapped m (needs m .delim d) d) (pr m d) ++
+      (prBindsTail m .kin .ksatisfies qs ++
+        par (wrapped m (needs m (.open (quantMin ev)) body) body) (pr m body)))
+  | .fn ps body =>
+    .kfunction :: .lparen :: (prParams ps ++ par (wrapped m (needs m (.open fnMin) body) body) (pr m body))
+  | .list items => .lbrack :: prArgs m .rbrack items
+  | .ctx es => .lbrace :: prEntries m es
+  | .range b1 lo hi b2 => startTok b1 :: (prEnd lo ++ .ellipsis :: (prEnd hi ++ [endTok b2]))
+  | .utest c e => cmpTok c :: prEnd e
+/-- The items and the closing token. -/
+def prArgs (m : Mode) (close : Tok) : Args → List Tok
+  | .nil => [close]
+  | .cons a as => par (wrapped m (needs m .callArg a) a) (pr m a) ++ prArgsTail m close as
+def prArgsTail (m : Mode) (close : Tok) : Args → List Tok
+  | .nil => [close]
+  | .cons a as => .comma :: (par (wrapped m (needs m .callArg a) a) (pr m a) ++ prArgsTail m close as)
+def prBindsTail (m : Mode) (sep close : Tok) : Binds → List Tok
+  | .nil => [close]
+  | .cons n v bs =>
+    .comma :: .name n :: sep :: (par (wrapped m (needs m .delim v) v) (pr m v) ++ prBindsTail m sep close bs)
+def prEntries (m : Mode) : Entries → List Tok
+  | .nil => [.rbrace]
+  | .cons k v es => keyTok k :: .colon :: (par (wrapped m (needs m .delim v) v) (pr m v) ++ prEntriesTail m es)
+def prEntriesTail (m : Mode) : Entries → List Tok
+  | .nil => [.rbrace]
+  | .cons k v es =>
+    .comma :: keyTok k :: .colon :: (par (wrapped m (needs m .delim v) v) (pr m v) ++ prEntriesTail m es)
+def prItersTail (m : Mode) : Iters → List Tok
+  | .nil => [.kreturn]
+  | .single v d its =>
+    .comma :: .name v :: .kin :: (par (wrapped m (needs m .delim d) d) (pr m d) ++ prItersTail m its)
+  | .range v lo hi its =>
+    .comma :: .name v :: .kin :: (par (wrapped m (needs m .delim lo) lo) (pr m lo) ++
+      .ellipsis :: (par (wrapped m (needs m .delim hi) hi) (pr m hi) ++ prItersTail m its))
 end
 
 /-- The rendering of the property: `full` parenthesises every operand that is not a leaf,
 `minimal` exactly those `needsParens` demands. -/
 def print (m : Mode) (t : Tree) : List Tok := pr m t
 
-/-- The `i`-th operand of the root (in print order) with its position. -/
+/-- The `i`-th operand of the root (in print order) with its position — those operands whose
+pair of parentheses can be needed: the first operand of a postfix/infix construct and the last
+operand of an open one (operands between delimiters never need a pair). -/
 def operand : Tree → Nat → Option (Pos × Tree)
   | .bin o l _, 0 => some (.binL o, l)
   | .bin o _ r, 1 => some (.binR o, r)
@@ -413,6 +917,13 @@ def operand : Tree → Nat → Option (Pos × Tree)
   | .filter e _, 0 => some (.filterE, e)
   | .filter _ i, 1 => some (.filterI, i)
   | .call f _, 0 => some (.callF, f)
+  | .callNamed f _ _ _, 0 => some (.callF, f)
+  | .inList e _ _ _, 0 => some (.binL .in_, e)
+  | .ite _ _ b, 0 => some (.open iteMin, b)
+  | .forS _ _ _ b, 0 => some (.open forMin, b)
+  | .forR _ _ _ _ b, 0 => some (.open forMin, b)
+  | .quant ev _ _ _ b, 0 => some (.open (quantMin ev), b)
+  | .fn _ b, 0 => some (.open fnMin, b)
   | _, _ => none
 
 /-- The minimal rendering with the `i`-th operand of the root left without parentheses
@@ -420,8 +931,8 @@ def operand : Tree → Nat → Option (Pos × Tree)
 def printWithout (t : Tree) (i : Nat) : List Tok :=
   let w := fun (j : Nat) (pos : Pos) (c : Tree) =>
     if j = i then false else wrapped .minimal (needs .minimal pos c) c
+  let m := Mode.minimal
   match t with
-  | .atom a => [atomTok a]
   | .bin o l r => par (w 0 (.binL o) l) (pr .minimal l) ++ tokOf o :: par (w 1 (.binR o) r) (pr .minimal r)
   | .neg e => .minus :: par (w 0 .negArg e) (pr .minimal e)
   | .between e lo hi =>
@@ -433,7 +944,136 @@ def printWithout (t : Tree) (i : Nat) : List Tok :=
   | .filter e i' =>
     par (w 0 .filterE e) (pr .minimal e) ++
       .lbrack :: (par (w 1 .filterI i') (pr .minimal i') ++ [.rbrack])
-  | .call f as => par (w 0 .callF f) (pr .minimal f) ++ .lparen :: prArgs .minimal as
+  | .call f as => par (w 0 .callF f) (pr .minimal f) ++ .lparen :: prArgs .minimal .rparen as
+  | .callNamed f n v bs =>
+    par (w 0 .callF f) (pr m f) ++
+      .lparen :: .name n :: .colon :: (par (wrapped m (needs m .delim v) v) (pr m v) ++
+        prBindsTail m .colon .rparen bs)
+  | .inList e a b more =>
+    par (w 0 (.binL .in_) e) (pr m e) ++
+      .kin :: .lparen :: (par (wrapped m (needs m .delim a) a) (pr m a) ++
+        .comma :: (par (wrapped m (needs m .delim b) b) (pr m b) ++ prArgsTail m .rparen more))
+  | .ite c a b =>
+    .kif :: (par (wrapped m (needs m .delim c) c) (pr m c) ++
+      .kthen :: (par (wrapped m (needs m .delim a) a) (pr m a) ++
+        .kelse :: par (w 0 (.open iteMin) b) (pr m b)))
+  | .forS v d its body =>
+    .kfor :: .name v :: .kin :: (par (wrapped m (needs m .delim d) d) (pr m d) ++
+      (prItersTail m its ++ par (w 0 (.open forMin) body) (pr m body)))
+  | .forR v lo hi its body =>
+    .kfor :: .name v :: .kin :: (par (wrapped m (needs m .delim lo) lo) (pr m lo) ++
+      .ellipsis :: (par (wrapped m (needs m .delim hi) hi) (pr m hi) ++
+        (prItersTail m its ++ par (w 0 (.open forMin) body) (pr m body))))
+  | .quant ev v d qs body =>
+    quantTok ev :: .name v :: .kin :: (par (wrapped m (needs m .delim d) d) (pr m d) ++
+      (prBindsTail m .kin .ksatisfies qs ++ par (w 0 (.open (quantMin ev)) body) (pr m body)))
+  | .fn ps body => .kfunction :: .lparen :: (prParams ps ++ par (w 0 (.open fnMin) body) (pr m body))
+  | t => pr m t
+
+/-! ## Every rendering with one pair of parentheses left out
+
+A rendering is a sequence of segments: fixed tokens and operands.  `Seg` carries the normal
+token list of a segment and its variants with one pair of parentheses missing somewhere inside
+(none for fixed tokens).  `drops m t` lists the renderings of `t` in mode `m` in which exactly
+one operand that `pr m` parenthesises — at any depth — is written bare.  In `minimal` mode every
+such pair is one `needsParens` demands. -/
+
+abbrev Seg := List Tok × List (List Tok)
+
+def Seg.fixed (p : List Tok) : Seg := (p, [])
+
+def segsFlat : List Seg → List Tok
+  | [] => []
+  | (p, _) :: rest => p ++ segsFlat rest
+
+def combine : List Seg → List (List Tok)
+  | [] => []
+  | (p, ds) :: rest => ds.map (· ++ segsFlat rest) ++ (combine rest).map (p ++ ·)
+
+/-- An operand: parenthesised iff `w`; `ds` are the variants of its bare rendering `p`. -/
+def Seg.opd (w : Bool) (p : List Tok) (ds : List (List Tok)) : Seg :=
+  (par w p, (if w then [p] else []) ++ ds.map (par w))
+
+mutual
+def drops (m : Mode) : Tree → List (List Tok)
+  | .atom _ => []
+  | .bin o l r =>
+    combine [.opd (wrapped m (needs m (.binL o) l) l) (pr m l) (drops m l), .fixed [tokOf o],
+      .opd (wrapped m (needs m (.binR o) r) r) (pr m r) (drops m r)]
+  | .neg e => combine [.fixed [.minus], .opd (wrapped m (needs m .negArg e) e) (pr m e) (drops m e)]
+  | .between e lo hi =>
+    combine [.opd (wrapped m (needs m .betweenE e) e) (pr m e) (drops m e), .fixed [.between],
+      .opd (wrapped m (needs m .betweenLo lo) lo) (pr m lo) (drops m lo), .fixed [.band],
+      .opd (wrapped m (needs m .betweenHi hi) hi) (pr m hi) (drops m hi)]
+  | .instOf e q qs =>
+    combine [.opd (wrapped m (needs m .instE e) e) (pr m e) (drops m e),
+      .fixed (.instance :: .kof :: .name q :: prQual qs)]
+  | .path e n => combine [.opd (wrapped m (needs m .pathE e) e) (pr m e) (drops m e), .fixed [.dot, .name n]]
+  | .filter e i =>
+    combine [.opd (wrapped m (needs m .filterE e) e) (pr m e) (drops m e), .fixed [.lbrack],
+      .opd (wrapped m (needs m .filterI i) i) (pr m i) (drops m i), .fixed [.rbrack]]
+  | .call f as =>
+    combine (.opd (wrapped m (needs m .callF f) f) (pr m f) (drops m f) :: .fixed [.lparen] :: segsArgs m .rparen as)
+  | .callNamed f n v bs =>
+    combine (.opd (wrapped m (needs m .callF f) f) (pr m f) (drops m f) :: .fixed [.lparen, .name n, .colon] ::
+      .opd (wrapped m (needs m .delim v) v) (pr m v) (drops m v) :: segsBindsTail m .colon .rparen bs)
+  | .inList e a b more =>
+    combine (.opd (wrapped m (needs m (.binL .in_) e) e) (pr m e) (drops m e) :: .fixed [.kin, .lparen] ::
+      .opd (wrapped m (needs m .delim a) a) (pr m a) (drops m a) :: .fixed [.comma] ::
+      .opd (wrapped m (needs m .delim b) b) (pr m b) (drops m b) :: segsArgsTail m .rparen more)
+  | .ite c a b =>
+    combine [.fixed [.kif], .opd (wrapped m (needs m .delim c) c) (pr m c) (drops m c), .fixed [.kthen],
+      .opd (wrapped m (needs m .delim a) a) (pr m a) (drops m a), .fixed [.kelse],
+      .opd (wrapped m (needs m (.open iteMin) b) b) (pr m b) (drops m b)]
+  | .forS v d its body =>
+    combine (.fixed [.kfor, .name v, .kin] :: .opd (wrapped m (needs m .delim d) d) (pr m d) (drops m d) ::
+      (segsItersTail m its ++
+        [.opd (wrapped m (needs m (.open forMin) body) body) (pr m body) (drops m body)]))
+  | .forR v lo hi its body =>
+    combine (.fixed [.kfor, .name v, .kin] :: .opd (wrapped m (needs m .delim lo) lo) (pr m lo) (drops m lo) ::
+      .fixed [.ellipsis] :: .opd (wrapped m (needs m .delim hi) hi) (pr m hi) (drops m hi) ::
+      (segsItersTail m its ++
+        [.opd (wrapped m (needs m (.open forMin) body) body) (pr m body) (drops m body)]))
+  | .quant ev v d qs body =>
+    combine (.fixed [quantTok ev, .name v, .kin] :: .opd (wrapped m (needs m .delim d) d) (pr m d) (drops m d) ::
+      (segsBindsTail m .kin .ksatisfies qs ++
+        [.opd (wrapped m (needs m (.open (quantMin ev)) body) body) (pr m body) (drops m body)]))
+  | .fn ps body =>
+    combine [.fixed (.kfunction :: .lparen :: prParams ps),
+      .opd (wrapped m (needs m (.open fnMin) body) body) (pr m body) (drops m body)]
+  | .list items => combine (.fixed [.lbrack] :: segsArgs m .rbrack items)
+  | .ctx es => combine (.fixed [.lbrace] :: segsEntries m es)
+  | .range _ _ _ _ => []
+  | .utest _ _ => []
+def segsArgs (m : Mode) (close : Tok) : Args → List Seg
+  | .nil => [.fixed [close]]
+  | .cons a as => .opd (wrapped m (needs m .callArg a) a) (pr m a) (drops m a) :: segsArgsTail m close as
+def segsArgsTail (m : Mode) (close : Tok) : Args → List Seg
+  | .nil => [.fixed [close]]
+  | .cons a as =>
+    .fixed [.comma] :: .opd (wrapped m (needs m .callArg a) a) (pr m a) (drops m a) :: segsArgsTail m close as
+def segsBindsTail (m : Mode) (sep close : Tok) : Binds → List Seg
+  | .nil => [.fixed [close]]
+  | .cons n v bs =>
+    .fixed [.comma, .name n, sep] :: .opd (wrapped m (needs m .delim v) v) (pr m v) (drops m v) ::
+      segsBindsTail m sep close bs
+def segsEntries (m : Mode) : Entries → List Seg
+  | .nil => [.fixed [.rbrace]]
+  | .cons k v es =>
+    .fixed [keyTok k, .colon] :: .opd (wrapped m (needs m .delim v) v) (pr m v) (drops m v) :: segsEntriesTail m es
+def segsEntriesTail (m : Mode) : Entries → List Seg
+  | .nil => [.fixed [.rbrace]]
+  | .cons k v es =>
+    .fixed [.comma, keyTok k, .colon] :: .opd (wrapped m (needs m .delim v) v) (pr m v) (drops m v) ::
+      segsEntriesTail m es
+def segsItersTail (m : Mode) : Iters → List Seg
+  | .nil => [.fixed [.kreturn]]
+  | .single v d its =>
+    .fixed [.comma, .name v, .kin] :: .opd (wrapped m (needs m .delim d) d) (pr m d) (drops m d) :: segsItersTail m its
+  | .range v lo hi its =>
+    .fixed [.comma, .name v, .kin] :: .opd (wrapped m (needs m .delim lo) lo) (pr m lo) (drops m lo) ::
+      .fixed [.ellipsis] :: .opd (wrapped m (needs m .delim hi) hi) (pr m hi) (drops m hi) :: segsItersTail m its
+end
 
 /-! ## The `between` flag of the lexer
 
@@ -459,9 +1099,30 @@ def noAnd : Tree → Bool
   | .path e _ => noAnd e
   | .filter e i => noAnd e && noAnd i
   | .call f as => noAnd f && noAndArgs as
+  | .callNamed f _ v bs => noAnd f && noAnd v && noAndBinds bs
+  | .inList e a b more => noAnd e && noAnd a && noAnd b && noAndArgs more
+  | .ite c a b => noAnd c && noAnd a && noAnd b
+  | .forS _ d its body => noAnd d && noAndIters its && noAnd body
+  | .forR _ lo hi its body => noAnd lo && noAnd hi && noAndIters its && noAnd body
+  | .quant _ _ d qs body => noAnd d && noAndBinds qs && noAnd body
+  | .fn _ body => noAnd body
+  | .list items => noAndArgs items
+  | .ctx es => noAndEntries es
+  | .range _ _ _ _ => true
+  | .utest _ _ => true
 def noAndArgs : Args → Bool
   | .nil => true
   | .cons a as => noAnd a && noAndArgs as
+def noAndBinds : Binds → Bool
+  | .nil => true
+  | .cons _ v bs => noAnd v && noAndBinds bs
+def noAndEntries : Entries → Bool
+  | .nil => true
+  | .cons _ v es => noAnd v && noAndEntries es
+def noAndIters : Iters → Bool
+  | .nil => true
+  | .single _ d its => noAnd d && noAndIters its
+  | .range _ lo hi its => noAnd lo && noAnd hi && noAndIters its
 end
 
 mutual
@@ -476,9 +1137,30 @@ def betweenSafe : Tree → Bool
   | .path e _ => betweenSafe e
   | .filter e i => betweenSafe e && betweenSafe i
   | .call f as => betweenSafe f && betweenSafeArgs as
+  | .callNamed f _ v bs => betweenSafe f && betweenSafe v && betweenSafeBinds bs
+  | .inList e a b more => betweenSafe e && betweenSafe a && betweenSafe b && betweenSafeArgs more
+  | .ite c a b => betweenSafe c && betweenSafe a && betweenSafe b
+  | .forS _ d its body => betweenSafe d && betweenSafeIters its && betweenSafe body
+  | .forR _ lo hi its body => betweenSafe lo && betweenSafe hi && betweenSafeIters its && betweenSafe body
+  | .quant _ _ d qs body => betweenSafe d && betweenSafeBinds qs && betweenSafe body
+  | .fn _ body => betweenSafe body
+  | .list items => betweenSafeArgs items
+  | .ctx es => betweenSafeEntries es
+  | .range _ _ _ _ => true
+  | .utest _ _ => true
 def betweenSafeArgs : Args → Bool
   | .nil => true
   | .cons a as => betweenSafe a && betweenSafeArgs as
+def betweenSafeBinds : Binds → Bool
+  | .nil => true
+  | .cons _ v bs => betweenSafe v && betweenSafeBinds bs
+def betweenSafeEntries : Entries → Bool
+  | .nil => true
+  | .cons _ v es => betweenSafe v && betweenSafeEntries es
+def betweenSafeIters : Iters → Bool
+  | .nil => true
+  | .single _ d its => betweenSafe d && betweenSafeIters its
+  | .range _ lo hi its => betweenSafe lo && betweenSafe hi && betweenSafeIters its
 end
 
 /-! ## A path of three names right after an opening parenthesis
@@ -488,7 +1170,9 @@ NAME DOT qualified_name | NAME` (feel.y:275-278) competes with `LEFT_PAREN expre
 RIGHT_PAREN` where `expression → NAME DOT NAME` (`path_names`, feel.y:134).  After
 `( NAME DOT NAME` with `DOT` ahead the generated tables shift (`DOT` is above `NAME`), which
 commits the parser to the qualified name of an interval: `( a . b . c` can then only go on
-as `( a.b.c .. x )`.  The operator language has no `..`, so such a token list is rejected. -/
+as `( a.b.c .. x )`.  The same holds after the `[` of a list (`interval_start: LEFT_BRACKET
+endpoint ELLIPSIS`, feel.y:179) and the `(` of `in (…)`.  An interval literal itself
+(`( a.b.c .. d ]`) is read as the grammar says. -/
 
 /-- Ends an operand: a `(` after it is an invocation, not a grouping parenthesis. -/
 def operandEnd : Tok → Bool
@@ -497,15 +1181,35 @@ def operandEnd : Tok → Bool
   | .lit _ => true
   | .rparen => true
   | .rbrack => true
+  | .rbrace => true
   | _ => false
 
 def startsThreeNames : List Tok → Bool
   | .name _ :: .dot :: .name _ :: .dot :: _ => true
   | _ => false
 
-def pathQuirk (prevEnd : Bool) : List Tok → Bool
+/-- The number of tokens of an interval literal after its opening token. -/
+def rangeLen (rest : List Tok) : Option Nat :=
+  match parseRange .round rest with
+  | some (_, r2) => some (rest.length - r2.length)
+  | none => none
+
+def opensGroup (t : Tok) : Bool := t == .lparen || t == .lbrack
+
+/-- `skip`: tokens of an interval literal still to pass. -/
+def pathQuirkAux (prevEnd : Bool) (skip : Nat) : List Tok → Bool
   | [] => false
-  | t :: rest => (t == .lparen && !prevEnd && startsThreeNames rest) || pathQuirk (operandEnd t) rest
+  | t :: rest =>
+    match skip with
+    | k + 1 => pathQuirkAux (k == 0) k rest
+    | 0 =>
+      if !prevEnd && (opensGroup t || t == .rbrack) then
+        match rangeLen rest with
+        | some n => pathQuirkAux (n == 0) n rest
+        | none => (opensGroup t && startsThreeNames rest) || pathQuirkAux (operandEnd t) 0 rest
+      else pathQuirkAux (operandEnd t) 0 rest
+
+def pathQuirk (prevEnd : Bool) (toks : List Tok) : Bool := pathQuirkAux prevEnd 0 toks
 
 /-- What the implementation makes of the text of a token list: the lexer decides which
 `and` is which, the tables refuse `( a . b . c`, otherwise the grammar applies. -/
